@@ -99,7 +99,7 @@ def check_case(case, stats=None, K=oracle.K_QUICK):
     if "error" in res:
         if stats is not None:
             stats.evaluations += 1
-            stats.discarded["reject:" + ("registers" if "out of registers" in res["error"]["description"] else oracle.norm_error(res["error"]["description"]))] += 1
+            stats.discarded["reject:" + ("registers" if oracle.out_of_registers(res["error"]["description"]) else oracle.norm_error(res["error"]["description"]))] += 1
         return
     recmap = diag.align(res["code"], res["_verif"]["instructions"])
     ftab = {}
